@@ -98,3 +98,8 @@ Example iter_after_close :
        [ORead [FCount 1]; OLines 1; ONext 1; OClose; ONext 2; ONext 1]
      = [RVals [VStr [108]]; RVals [VStr [49]]; RVals [VStr [108;50]]; RTrue; RRaise; RRaise].
 Proof. vm_compute. split; reflexivity. Qed.
+(* counts without limit: negative, and far beyond the file (C19-13) *)
+Example c19_13 : snd (run1 MR [97;98;99;10;100] [ORead [FCount 1]; ORead [FCount (-1)]; ORead [FCount (-1)];
+                                                 OSeek WSet 2; ORead [FCount 1099511627776; FCount 1]])
+                = [RVals [VStr [97]]; RVals [VStr [98;99;10;100]]; RVals [VNil]; ROff 2; RVals [VStr [99;10;100]; VNil]].
+Proof. vm_compute. reflexivity. Qed.
